@@ -21,6 +21,8 @@ def frame_oracle(kind, ops, obs):
     import installs exactly the imported nodes (nothing stored is overwritten); a clone has the content
     of its source under the new id."""
     empty = [[], []] if kind == 'shared' else []
+    if sc.uncanonical(obs):
+        return sc.uncanonical(obs)
     snaps = sc.snapshots(obs, empty)
     prev = sc.views(kind, empty)
     rehomed = False
@@ -121,7 +123,7 @@ class Hist(Stream):
            ['upd_nodes', 'g1', 'p0', 'v1'], ['graph_exists', 'g1']]
 
     def gen(self, rng, tier):
-        n = 160 if tier == 'quick' else 4000
+        n = 400 if tier == 'quick' else 6000
         out = []
         for i in range(n):
             r = rng.random()
